@@ -58,6 +58,9 @@ def corpus():
         {'app': {'fangs': [], 'items': [R('/abc/def', 1), R('/abc/ghi', 3), R('/:p/xyz', 2)]}, 'reqs': [q('GET', '/abc/xyz'), q('GET', '/abc/ghi')]},
         {'app': {'fangs': [], 'items': [R('/api/v1', 1), R('/api/v2', 3), R('/:p', 2)]}, 'reqs': [q('GET', '/api'), q('GET', '/apj')]},
         {'app': {'fangs': [], 'items': [{'mount': '/api', 'app': {'fangs': [], 'items': [R('/x', 1)]}}, R('/:p', 2, ('PUT',))]}, 'reqs': [q('PUT', '/api'), q('PUT', '/apj'), q('GET', '/api/x')]},
+        # a chain of static routes in which a node WITH a handler has a single static child: single-child compression must stop at a handler
+        {'app': {'fangs': [], 'items': [R('/api/users', 1), R('/api/users/me', 2)]}, 'reqs': [q('GET', '/api/users'), q('GET', '/api/users/me'), q('HEAD', '/api/users'), q('GET', '/api')]},
+        {'app': {'fangs': [], 'items': [R('/teams/:id/members/admins/owners', 2), R('/teams/:id/members/admins', 1)]}, 'reqs': [q('GET', '/teams/7/members/admins'), q('GET', '/teams/7/members/admins/owners'), q('GET', '/teams/7/members')]},
         # a static branch that captures a param and then leads nowhere, beside a param branch that matches: whichever way the search handles the dead end,
         # the params a handler sees are the segments at the param positions of ITS route (a search that goes back must forget what the abandoned branch captured)
         {'app': {'fangs': [], 'items': [R('/users/:id/posts', 1), R('/:tenant/:name/profile', 2)]}, 'reqs': [q('GET', '/users/alice/profile'), q('GET', '/users/alice/posts'), q('GET', '/acme/bob/profile')]},
